@@ -455,6 +455,112 @@ def run_varray(item, t):
         if read(a) != want(M): t.fail(site, ctx + what, want(M), read(a)); fresh(); return False
         return True
 
+    def masked_size_helper(ms, m, sel):
+        """The size helper THROUGH a masked reference w = v[mask]. The nested-list model of w is the list of the selected rows
+        [rows[i] for i in sel] (the rows themselves, not copies): w.size[ix] reads the lengths of the rows ix selects in THAT
+        list, and every store form resizes exactly those rows of v - a resize keeps the leading elements of a row (the new
+        size 3 / 3+q is larger than every size of the scope {0,1,2}, so a row resized by mistake and a selected row left alone
+        both show in len()). ix runs over every integer -k-1..k and every forward slice start,stop in {None,-k-1..k+1},
+        step in {None,1,2} of the view's length k; masks over all 2^k 0/1 masks of the view's length. A masked reference of
+        a masked reference cannot be constructed for FixedVArray (ValueError), so there is no second level to explore."""
+        k = len(sel); msz = [sizes[i] for i in sel]
+        pre = "nd.FixedVArray.masked-reference.size-helper."
+        wh = "w=v[mask %s]; " % ms
+        if k and sel != list(range(k)): t.cls("nd.varray.masked-size-helper.mask-not-a-leading-run")
+        NEW = 3
+
+        def lst(x): return [x[i] for i in range(len(x))] if hasattr(x, "__len__") else [x]
+
+        def model(pairs):
+            M = [list(x) for x in base]
+            for i, new in pairs: M[i] = (list(base[i]) + [None] * new)[:new]
+            return M
+
+        def agrees(got, M):
+            return len(got) == n and all(len(got[i]) == len(M[i]) and all(M[i][j] is None or got[i][j] == repr(mk(M[i][j])) for j in range(len(M[i]))) for i in range(n))
+
+        def after(site, what, M, exc, w=None, alt_site=None, alt_M=None):
+            t.add("evaluations")
+            got = read(a)
+            if exc or not agrees(got, M):
+                st = alt_site if (alt_site and not exc and agrees(got, alt_M)) else site
+                t.fail(st, ctx + wh + what, "row sizes %s (leading elements kept)" % [len(x) for x in M], exc or got)
+            elif w is not None:
+                vs, e2 = attempt(t, pre + "getitem", lambda: lst(w.size[slice(None)]))
+                if e2 or vs != [len(M[i]) for i in sel]: t.fail(pre + "getitem.after-store", ctx + wh + what + "; w.size[:]", [len(M[i]) for i in sel], e2 or vs)
+            if got != want(base): fresh()
+
+        def unchanged(site, what, exc):
+            t.add("evaluations")
+            if exc is None or read(a) != want(base):
+                t.fail(site, ctx + wh + what, "an exception, nothing resized", exc or read(a))
+                if read(a) != want(base): fresh()
+
+        exprs = [(p, [p % k] if -k <= p < k else None) for p in range(-k - 1, k + 1)]
+        bounds = [None] + list(range(-k - 1, k + 2))
+        exprs += [(slice(st, sp, step), list(range(*slice(st, sp, step).indices(k)))) for st in bounds for sp in bounds for step in (None, 1, 2)]
+        for ix, q in exprs:
+            what = "w.size[%s]" % show(ix)
+            w = a[m]
+            t.add("transitions", 3)
+            got, exc = attempt(t, pre + "getitem", lambda: lst(w.size[ix]))
+            if q is None:
+                t.cls("nd.varray.masked-size-helper.int.out-of-range")
+                if exc is None: t.fail(pre + "getitem.out-of-range-accepted", ctx + wh + what, "an exception", got)
+                _, exc = attempt(t, pre + "setitem", lambda: w.size.__setitem__(ix, NEW))
+                unchanged(pre + "setitem.out-of-range-accepted", what + "=%d" % NEW, exc)
+                _, exc = attempt(t, pre + "setitem", lambda: w.size.__setitem__(ix, int_array([NEW])))
+                unchanged(pre + "setitem.out-of-range-accepted", what + "=IntArray[%d]" % NEW, exc)
+                continue
+            if exc or got != [msz[p] for p in q]: t.fail(pre + "getitem", ctx + wh + what, [msz[p] for p in q], exc or got)
+            if len(q) >= 1 and [sel[p] for p in q] != q: t.cls("nd.varray.masked-size-helper.selected-rows-differ-from-raw-rows")
+            # scalar store
+            _, exc = attempt(t, pre + "setitem", lambda: w.size.__setitem__(ix, NEW))
+            after(pre + "setitem.scalar", what + "=%d" % NEW, model([(sel[p], NEW) for p in q]), exc, w)
+            # IntArray store: one new size per selected row of the view
+            w = a[m]
+            news = [NEW + j for j in range(len(q))]
+            _, exc = attempt(t, pre + "setitem", lambda: w.size.__setitem__(ix, int_array(news)))
+            after(pre + "setitem.vector", what + "=IntArray%s" % news, model([(sel[p], news[j]) for j, p in enumerate(q)]), exc, w)
+            if q: t.cls("nd.varray.masked-size-helper.vector-store")
+            w = a[m]
+            t.add("transitions")
+            _, exc = attempt(t, pre + "setitem", lambda: w.size.__setitem__(ix, int_array(news + [NEW])))
+            unchanged(pre + "setitem.vector.wrong-length", what + "=IntArray%s" % (news + [NEW]), exc)
+        # mask forms, masks of the VIEW's length
+        for mask2 in masks_of(k):
+            m2 = int_array(mask2); ms2 = "".join(map(str, mask2)) or "<empty>"
+            q = [p for p in range(k) if mask2[p]]
+            w = a[m]
+            t.add("transitions", 4)
+            # read: the binding's slice overload may shadow the mask overload (TypeError) - a refusal is not a wrong answer
+            got, exc = attempt(t, pre + "getitem", lambda: lst(w.size[m2]))
+            if exc: t.add("nd.varray.masked-size-helper.mask-read-refused")
+            elif got != [msz[p] for p in q]: t.fail(pre + "getitem.mask", ctx + wh + "w.size[mask %s]" % ms2, [msz[p] for p in q], got)
+            if 0 < len(q) < k: t.cls("nd.varray.masked-size-helper.mask-store.partial-mask")
+            _, exc = attempt(t, pre + "setitem", lambda: w.size.__setitem__(m2, NEW))
+            after(pre + "setitem.mask-scalar", "w.size[mask %s]=%d" % (ms2, NEW), model([(sel[p], NEW) for p in q]), exc, w,
+                  alt_site=pre + "setitem.mask-scalar.mask-ignored(every-row-of-the-view-resized)", alt_M=model([(i, NEW) for i in sel]))
+            # IntArray through a mask on a masked reference: the binding documents a refusal; a refusal must leave the data
+            # alone, an acceptance must follow the list model (full-length and compressed sources)
+            for news, nm in (([NEW + p for p in range(k)], "full"), ([NEW + j for j in range(len(q))], "compressed")):
+                if nm == "compressed" and len(q) == k: continue
+                w = a[m]
+                _, exc = attempt(t, pre + "setitem", lambda: w.size.__setitem__(m2, int_array(news)))
+                if exc: unchanged(pre + "setitem.mask-vector.refused-but-modified", "w.size[mask %s]=IntArray%s" % (ms2, news), exc)
+                else:
+                    M = model([(sel[p], news[p] if nm == "full" else news[j]) for j, p in enumerate(q)])
+                    after(pre + "setitem.mask-vector", "w.size[mask %s]=IntArray%s (%s)" % (ms2, news, nm), M, exc, w)
+        # read-only twin: no store form through a masked reference of it may resize anything
+        wr, exc = attempt(t, pre + "readonly", lambda: ro[m])
+        if not exc:
+            for nm, f in (("w.size[:]=%d" % NEW, lambda: wr.size.__setitem__(slice(None), NEW)),
+                          ("w.size[:]=IntArray", lambda: wr.size.__setitem__(slice(None), int_array([NEW] * k))),
+                          ("w.size[mask 1..1]=%d" % NEW, lambda: wr.size.__setitem__(int_array([1] * k), NEW))):
+                t.add("transitions")
+                _, exc = attempt(t, pre + "readonly", f)
+                if (exc is None and k) or read(ro) != want(base): t.fail(pre + "readonly", ctx + "w=ro[mask %s]; " % ms + nm, "an exception, unchanged", exc or read(ro))
+
     for ix, sel, cl in dim_selections(n):
         t.cls("nd.varray." + cl)
         what = "v[%s]" % show(ix)
@@ -586,9 +692,11 @@ def run_varray(item, t):
                         M = [list(x) for x in base]; M[i][-1] = 50
                         if state("nd.FixedVArray.mask.write-through", "w=v[mask %s]; w[%d][-1]=elem" % (ms, p), M): row[sizes[i] - 1] = mk(base[i][-1])
                         del row
+            if not (exc or len(r) != len(sel)):
+                masked_size_helper(ms, m, sel)
             # masked V-array store: full-length and compressed sources
             k = len(sel)
-            fullM = [[80 + 4 * i + j for j in range((i + 2) % 3)] for i in range(n)]
+            fullM =[[80 + 4 * i + j for j in range((i + 2) % 3)] for i in range(n)]
             t.add("transitions")
             _, exc = attempt(t, "nd.FixedVArray.mask", lambda: a.__setitem__(m, build(fullM)))
             M = [list(fullM[i]) if mask[i] else list(base[i]) for i in range(n)]
@@ -707,6 +815,8 @@ def run(R, thorough):
         R.declare(*["nd.%s.int.huge.%s" % (d, c) for c in ("int-range", "ssize-range", "overflowing")])
     R.declare("nd.2d.mask.nonzero-values", "nd.2d.mask.array1d-full", "nd.2d.mask.array1d-compressed", "nd.2d.mask.array1d-wrong-length")
     R.declare("nd.2d.mask", "nd.2d.mask-wrong-shape", "nd.varray.mask", "nd.varray.mask-wrong-length", "nd.2d.malformed-index", "nd.varray.mask.slice-of-non-adjacent-rows", "nd.matrix.row-store-from-masked-reference")
+    R.declare("nd.varray.masked-size-helper.mask-not-a-leading-run", "nd.varray.masked-size-helper.int.out-of-range", "nd.varray.masked-size-helper.selected-rows-differ-from-raw-rows",
+              "nd.varray.masked-size-helper.vector-store", "nd.varray.masked-size-helper.mask-store.partial-mask")
     ok = fork_map(run_any, items, R, "nd.worker.fatal", describe=repr)
     malformed_2d(R)
     msg = ("FixedArray2D %s sizes 0..3x0..3 (one dimension exhaustive: ints -4..4, every forward slice start,stop in {None,-4..4} step in {None,1,2,3}, zero step; other dimension 5 representatives; all masks); "
